@@ -72,30 +72,117 @@ def _schedule(fn):
         return None, 'the two updates of (d, q, r) were not found'
     roles[tups[0].targets[0].elts[1].id] = 'Q'
     roles[tups[0].targets[0].elts[2].id] = 'R'
+    from . import sem, cond
+    from .linform import Lin, to_lin
+    from .rules_ss import _xp_arith
+    pm = parents(node)
+    roles = {k: v for k, v in roles.items() if v != 'T'}          # temporaries (t, q0, ..) are expanded, not named
+
+    def canon(e):
+        """canonical text: linear sub-expressions in normal form, everything else rebuilt around them"""
+        l = to_lin(e, opaque=False)
+        if l is not None:
+            return repr(l)
+        if isinstance(e, ast.BinOp):
+            return f'({canon(e.left)} {type(e.op).__name__} {canon(e.right)})'
+        if isinstance(e, ast.Compare) and len(e.ops) == 1:
+            a, b = canon(e.left), canon(e.comparators[0])
+            if isinstance(e.ops[0], (ast.Eq, ast.NotEq)) and b < a:
+                a, b = b, a
+            return f'({a} {type(e.ops[0]).__name__} {b})'
+        if isinstance(e, ast.Tuple):
+            return '(' + ', '.join(canon(x) for x in e.elts) + ')'
+        if isinstance(e, ast.Call) and isinstance(e.func, ast.Attribute) and not e.keywords:
+            return f'({canon(e.func.value)}).{e.func.attr}({", ".join(canon(a) for a in e.args)})'
+        return cnorm(e)
+
+    def val(e, use):
+        """e with temporaries expanded (at `use`), the schedule variables named by their roles"""
+        keep = set(roles)
+
+        class X(ast.NodeTransformer):
+            def visit_Name(self, n):
+                if n.id in keep or not isinstance(n.ctx, ast.Load):
+                    return n
+                ds = [d for d in astq.reaching_definitions(node, n.id, use, pm) if d[2] == 'assign' and d[1] is not None]
+                if len(ds) == 1 and not any(isinstance(y, ast.Name) and y.id == n.id for y in ast.walk(ds[0][1])) and isinstance(ds[0][0], ast.stmt) \
+                        and isinstance(ds[0][0], ast.Assign) and isinstance(ds[0][0].targets[0], ast.Name):
+                    return X2(ds[0][0]).visit(copy.deepcopy(ds[0][1]))
+                return n
+
+        def X2(st):
+            x = X()
+            return x
+        return canon(_Ren(roles).visit(X().visit(copy.deepcopy(e))))
     out = {}
-    for s in iter_nodes(node):
-        if isinstance(s, ast.Assign) and len(s.targets) == 1 and isinstance(s.targets[0], ast.Name) and roles.get(s.targets[0].id) in ('T', 'P'):
-            out['init ' + roles[s.targets[0].id]] = _ren(s.value, roles)
-    out['enter inner'] = _ren(tups[0].value, roles)
-    out['step inner'] = _ren(tups[1].value, roles)
+    inits = [s for s in iter_nodes(node) if isinstance(s, ast.Assign) and len(s.targets) == 1 and isinstance(s.targets[0], ast.Name) and s.targets[0].id == pv
+             and astq.position(s) < astq.position(outer)]
+    if len(inits) != 1:
+        return None, 'the initialisation of p before the outer loop was not found'
+    out['init P'] = val(inits[0].value, inits[0])
+    out['enter inner'] = val(tups[0].value, tups[0])
+    out['step inner'] = val(tups[1].value, tups[1])
     step = [s for s in outer.body if isinstance(s, ast.AugAssign) and isinstance(s.target, ast.Name) and s.target.id == pv]
-    out['step outer'] = (type(step[0].op).__name__ + ' ' + _ren(step[0].value, roles)) if step else '?'
-    # the index set: `for i in range(n - d): if i & p == r`  |  (i for i in range(n - d) if i & p == r)
+    out['step outer'] = (type(step[0].op).__name__ + ' ' + val(step[0].value, step[0])) if step else '?'
+    # the index set {I} of a round, I = the lower position of a comparator: its range and its filter, in terms of I itself --
+    # `for i in range(n - d): if i & p == r`, `for j in range(d, n): i = j - d; if i & p != r: continue`, (i for i in range(n - d) if ..)
     idx = None
     for s in iter_nodes(inner):
         if isinstance(s, ast.For) and isinstance(s.iter, ast.Call) and attr_tail(s.iter.func) == 'range' and isinstance(s.target, ast.Name):
-            ifs = [x for x in s.body if isinstance(x, ast.If)]
-            if ifs:
-                idx = (s.target.id, s.iter, ifs[0].test)
+            ex = [x for x in iter_nodes(s) if isinstance(x, ast.Assign) and isinstance(x.targets[0], ast.Tuple) and len(x.targets[0].elts) == 2
+                  and all(isinstance(t_, ast.Subscript) for t_ in x.targets[0].elts)]
+            if len(ex) != 1:
+                continue
+            v = s.target.id
+            first = to_lin(_xp_arith(fn, ex[0].targets[0].elts[0].slice, ex[0], pm), opaque=False)
+            if first is None or first.coef(v) != 1:
+                continue
+            c = first - Lin.sym(v)                                   # I = v + c
+            rb = [to_lin(a, opaque=False) for a in s.iter.args]
+            if any(b is None for b in rb) or len(rb) > 2:
+                continue
+            lo, hi = (Lin(0), rb[0]) if len(rb) == 1 else (rb[0], rb[1])
+            f = cond.context(fn, ex[0], pm, stop=s)
+            idx = (v, c, lo + c, hi + c, f)
         if isinstance(s, (ast.GeneratorExp, ast.ListComp)) and len(s.generators) == 1 and isinstance(s.generators[0].iter, ast.Call) \
-                and attr_tail(s.generators[0].iter.func) == 'range' and s.generators[0].ifs and isinstance(s.generators[0].target, ast.Name):
+                and attr_tail(s.generators[0].iter.func) == 'range' and s.generators[0].ifs and isinstance(s.generators[0].target, ast.Name) \
+                and isinstance(s.elt, ast.Name) and s.elt.id == s.generators[0].target.id:
             g = s.generators[0]
-            idx = (g.target.id, g.iter, g.ifs[0])
+            rb = [to_lin(a, opaque=False) for a in g.iter.args]
+            if any(b is None for b in rb) or len(rb) > 2:
+                continue
+            lo, hi = (Lin(0), rb[0]) if len(rb) == 1 else (rb[0], rb[1])
+            f = cond.conj([cond.formula(fn, c_, s, pm) for c_ in g.ifs])
+            idx = (g.target.id, Lin(0), lo, hi, f)
     if idx is None:
         return None, 'the index set of a round (range(n - d) filtered by i & p == r) was not found'
-    r2 = dict(roles)
-    r2[idx[0]] = 'I'
-    out['indices'] = _ren(idx[1], r2) + ' if ' + _ren(idx[2], r2)
+    v, c, lo, hi, f = idx
+
+    def atom_text(a):
+        """an atom of the filter, rewritten over I (v = I - c) and the role names"""
+        try:
+            e = ast.parse(a, mode='eval').body
+        except SyntaxError:
+            return a
+        sub = ast.parse(f'(I_ - ({repr(c)}))' if (c.t or c.c) else 'I_', mode='eval').body
+
+        class S(ast.NodeTransformer):
+            def visit_Name(self, n):
+                return copy.deepcopy(sub) if n.id == v else n
+        return canon(_Ren(roles).visit(S().visit(e)))
+
+    def fmt(g):
+        if g[0] == 'atom':
+            return atom_text(g[1])
+        if g[0] == 'not':
+            return f'not {fmt(g[1])}'
+        if g[0] == 'const':
+            return str(g[1])
+        return '(' + (' and ' if g[0] == 'and' else ' or ').join(sorted(fmt(x) for x in g[1])) + ')'
+
+    def rl(l):
+        return canon(_Ren(roles).visit(ast.parse(repr(l), mode='eval').body))
+    out['indices'] = f'I in range({rl(lo)}, {rl(hi)}) if {fmt(f)}'
     return out, None
 
 
@@ -150,7 +237,7 @@ def rule_SN2(ctx, rep):
     good = False
     why = 'unrecognised compare-exchange'
     if isinstance(st, ast.Assign) and isinstance(st.targets[0], ast.Tuple) and len(st.targets[0].elts) == 2 and len(sw[0].args) == 3:
-        lo_t, hi_t = [norm(x) for x in st.targets[0].elts]
+        lo_t, hi_t = [norm(routes.xp(fn, x, st, pm)) for x in st.targets[0].elts]       # positions written, index temporaries expanded
         X, Y = [routes.xp(fn, a, st, pm) for a in sw[0].args[1:]]
         c = _less(routes.xp(fn, sw[0].args[0], st, pm))
         # positions read
@@ -399,7 +486,8 @@ def rule_SN6(ctx, rep):
     loops = [l for l in iter_nodes(fn.node) if isinstance(l, ast.For) and isinstance(l.iter, ast.Call) and attr_tail(l.iter.func) == 'range' and len(l.iter.args) == 1]
     okp = False
     if len(loops) == 1:
-        cnt_ok = all(_arith(loops[0].iter.args[0], {nv: n}) == n // 2 for n in range(1, 10))
+        from .rules_ss import _xp_arith as _xa
+        cnt_ok = all(_arith(_xa(fn, loops[0].iter.args[0], loops[0], pm), {nv: n}) == n // 2 for n in range(1, 10))
         sw = [c for c in iter_nodes(loops[0]) if isinstance(c, ast.Call) and attr_tail(c.func) == 'if_swap' and len(c.args) == 3]
         if cnt_ok and len(sw) == 1:
             st = astq.enclosing_stmt(sw[0], pm)
@@ -441,7 +529,10 @@ def rule_SN6(ctx, rep):
         a0 = call.args[0]
         good, why = False, 'the argument is not a slice of the pre-sorted list'
         if isinstance(a0, ast.Subscript) and isinstance(a0.slice, ast.Slice) and a0.slice.step is None:
+            from .rules_ss import _xp_arith as _xa2
             lo, hi = a0.slice.lower, a0.slice.upper
+            lo = _xa2(fn, lo, call, pm) if lo is not None else None          # bounds through arithmetic temporaries (half = n // 2)
+            hi = _xa2(fn, hi, call, pm) if hi is not None else None
             bad_n = []
             for n in range(1, 12):
                 l = 0 if lo is None else _arith(lo, {nv: n})
